@@ -474,6 +474,7 @@ def den (cfg : Cfg) (gr : Grammar) : Nat → Bool → Body → St → Term → R
       | .late g =>
         match resolve cfg.uf st.σ g with
         | none => .error .fuel
+        | some (.var _) => .error (.unsupported "instantiation_error: unbound run-time body")
         | some g' =>
           match Body.ofTerm g' with
           | .error _ => .error (.unsupported "run-time body is not a grammar body")
